@@ -5,7 +5,7 @@ built copy of the same world; the same call with the same arguments is issued to
 by step, faulty operations included.  See DESIGN.md section 5 / C16.
 """
 from ..sim import ops as opsmod
-from ..sim.bench import Session, ShapeChanged, digest_events
+from ..sim.bench import Session, ShapeChanged, digest_events, raised_in_sut
 from ..sim.gen import Gen
 from ..sim.geom import dec, enc
 from ..sim.world import gen_world
@@ -184,6 +184,11 @@ def execute(world, opsource):
                 break
     except ShapeChanged as e:
         fail("C16.state", i, res.ops[-1] if res.ops else None, "ok", f"Labware.volumes shape changed: {e.args}")
+    except Exception as e:  # noqa
+        if not raised_in_sut(e):
+            raise
+        fail("C16.observe", i, res.ops[-1] if res.ops else None, "ok",
+             f"observing a replica raised {type(e).__name__} inside robotools")
     res.events = [evo.events, flu.events, base.events]
     res.digest = digest_events(res.events)
     for v in res.violations:
